@@ -1,15 +1,17 @@
 //! C12 (BOUNDED, deterministic interleaving): two publish calls on clones of one directory; the second reads the epoch record, then the
 //! first runs to completion before the second begins its transaction. Each call must fail without effect or take effect as a whole;
+//! Second interleaving: a whole publish on one clone runs while the other's commit write has been issued and has not reached storage.
 //! the calls that changed the directory received distinct, consecutive epochs, and every (epoch, hash) pair a call returned is the
 //! pair audits verify against. Other interleavings are not explored (schedules are outside this family).
 use crate::{Failure, SearchResult};
 use akd_core::{ExampleLabel, ExperimentalConfiguration, WhatsAppV1Configuration};
 
-fn run(cfg: &str, cache: bool, rt: &tokio::runtime::Runtime, out: &mut Vec<Failure>) {
-    let r = if cfg == "whatsapp_v1" {
-        rt.block_on(akd::vx_export::c12_overtaken_on_clone::<WhatsAppV1Configuration>(cache))
-    } else {
-        rt.block_on(akd::vx_export::c12_overtaken_on_clone::<ExperimentalConfiguration<ExampleLabel>>(cache))
+fn run(cfg: &str, cache: bool, at_commit: bool, rt: &tokio::runtime::Runtime, out: &mut Vec<Failure>) {
+    let r = match (cfg == "whatsapp_v1", at_commit) {
+        (true, false) => rt.block_on(akd::vx_export::c12_overtaken_on_clone::<WhatsAppV1Configuration>(cache)),
+        (false, false) => rt.block_on(akd::vx_export::c12_overtaken_on_clone::<ExperimentalConfiguration<ExampleLabel>>(cache)),
+        (true, true) => rt.block_on(akd::vx_export::c12_overtaken_at_commit::<WhatsAppV1Configuration>(cache)),
+        (false, true) => rt.block_on(akd::vx_export::c12_overtaken_at_commit::<ExperimentalConfiguration<ExampleLabel>>(cache)),
     };
     if let Ok(o) = r {
         let mut bad = vec![];
@@ -21,9 +23,10 @@ fn run(cfg: &str, cache: bool, rt: &tokio::runtime::Runtime, out: &mut Vec<Failu
         if o.p2.is_none() && o.b_ok { bad.push("the second call returned an error but its value is served".to_string()); }
         if let Some(b) = bad.first() {
             out.push(Failure {
-                clause: "directory_publish/Directory.publish__tail#body".into(),
-                case: vec!["c12".into(), cfg.into(), (cache as u8).to_string()],
-                input: format!("[{cfg}, {} cache] epoch 1 = {{a,b,c}}; publish P2 = [(b,b2),(e,e1)] on one clone reads the epoch record; before it begins its transaction, P1 = [(a,a2),(z,z1)] on another clone runs to completion", if cache { "with" } else { "without" }),
+                clause: (if at_commit { "manager/StorageManager.commit_transaction#body" } else { "directory_publish/Directory.publish__tail#body" }).into(),
+                case: vec!["c12".into(), cfg.into(), (cache as u8).to_string(), (at_commit as u8).to_string()],
+                input: if at_commit { format!("[{cfg}, {} cache] epoch 1 = {{a,b,c}}; publish P2 = [(b,b2),(e,e1)] on one clone has issued its commit write; before that write reaches storage, P1 = [(a,a2),(z,z1)] on another clone runs from start to end", if cache { "with" } else { "without" }) }
+                       else { format!("[{cfg}, {} cache] epoch 1 = {{a,b,c}}; publish P2 = [(b,b2),(e,e1)] on one clone reads the epoch record; before it begins its transaction, P1 = [(a,a2),(z,z1)] on another clone runs to completion", if cache { "with" } else { "without" }) },
                 expected: "each call fails without effect or takes effect as a whole; successful calls get distinct consecutive epochs; every returned (epoch, hash) pair is what audits verify against".into(),
                 observed: format!("{b} ({} problems)", bad.len()),
                 finding_id: None,
@@ -35,12 +38,12 @@ fn run(cfg: &str, cache: bool, rt: &tokio::runtime::Runtime, out: &mut Vec<Failu
 pub fn search(_seed: u64, _full: bool, rt: &tokio::runtime::Runtime) -> SearchResult {
     let mut out = vec![];
     let mut n = 0;
-    for cfg in ["whatsapp_v1", "experimental"] { for cache in [false, true] { run(cfg, cache, rt, &mut out); n += 1; } }
-    SearchResult { evaluations: n, failures: out, summary: "BOUNDED: one deterministic interleaving of two publishes on clones (the later-starting call overtaken between its epoch read and its transaction), with/without cache, both configurations".into() }
+    for cfg in ["whatsapp_v1", "experimental"] { for cache in [false, true] { for at_commit in [false, true] { run(cfg, cache, at_commit, rt, &mut out); n += 1; } } }
+    SearchResult { evaluations: n, failures: out, summary: "BOUNDED: two deterministic interleavings of two publishes on clones (the later-starting call overtaken between its epoch read and its transaction; a whole call running while the other's commit write is in flight), with/without cache, both configurations".into() }
 }
 
 pub fn replay(case: &[&str], rt: &tokio::runtime::Runtime) -> (bool, String) {
     let mut out = vec![];
-    run(case[0], case[1] == "1", rt, &mut out);
+    run(case[0], case[1] == "1", case.get(2).map(|s| *s == "1").unwrap_or(false), rt, &mut out);
     match out.first() { Some(f) => (true, format!("{}: expected {}, observed {}", f.input, f.expected, f.observed)), None => (false, "holds".into()) }
 }
